@@ -177,6 +177,18 @@ func (c *Compiler) ifStmt(s *ast.IfStmt) {
 	c.B.End()
 }
 
+// expectValues tells the call that is the single right-hand side of `a, b = f(x)` how many
+// values the statement expects, as XGo's front end does (it decides between the members of an
+// overload family with equal parameters and different result counts).
+func (c *Compiler) expectValues(s *ast.AssignStmt) {
+	c.wantLHS = 0
+	if len(s.Lhs) >= 2 && len(s.Rhs) == 1 {
+		if _, ok := s.Rhs[0].(*ast.CallExpr); ok {
+			c.wantLHS = len(s.Lhs)
+		}
+	}
+}
+
 func (c *Compiler) assign(s *ast.AssignStmt) {
 	switch s.Tok {
 	case token.DEFINE:
@@ -189,6 +201,7 @@ func (c *Compiler) assign(s *ast.AssignStmt) {
 			names[i] = id.Name
 		}
 		c.B.DefineVarStart(token.NoPos, names...)
+		c.expectValues(s)
 		for _, r := range s.Rhs {
 			c.expr(r)
 		}
@@ -197,6 +210,7 @@ func (c *Compiler) assign(s *ast.AssignStmt) {
 		for _, l := range s.Lhs {
 			c.ref(l)
 		}
+		c.expectValues(s)
 		for _, r := range s.Rhs {
 			c.expr(r)
 		}
